@@ -351,6 +351,28 @@ def check_hs_tables(ctx, p):
             kp, kg = _ham_keys(pre), _ham_keys(gam)
             ctx.ob("PAIR-2", f"{tag}: prefactor exp(-dt U/2) and gamma = arccosh(exp(dt U/2)) read the same coupling U",
                    len(kp) == 1 and kp == kg, f"prefactor reads {kp}, gamma reads {kg}", f)
+            # cosh(gamma) = exp(dt U / 2) is what makes the two fields sum to exp(-dt U n_up n_dn): gamma must be
+            # arccosh(exp(.)) on every branch (an approximate small-argument form breaks the identity at O((dt U)^2))
+            def exact_gamma(t_):
+                t_ = strip_wrappers(t_)
+                if t_.op == "call" and (array_fn(t_) or "").split(".")[-1] == "arccosh" and call_parts(t_)[1]:
+                    in_ = strip_wrappers(call_parts(t_)[1][0])
+                    return in_.op == "call" and (array_fn(in_) or "").split(".")[-1] == "exp"
+                return False
+            gs = strip_wrappers(gam)
+            arms = None
+            w_ = m_where(gs)
+            if w_ is not None:
+                arms = [w_[1], w_[2]]
+            elif gs.op in ("phi", "ifexp"):
+                arms = [gs.args[1], gs.args[2]]
+            if arms is not None:
+                ctx.ob("PAIR-2", f"{tag}: gamma is arccosh(exp(dt U / 2)) on every branch", all(exact_gamma(a_) for a_ in arms),
+                       f"branches: {[show(a_, maxdepth=2)[:40] for a_ in arms]}", f)
+            elif exact_gamma(gs):
+                ctx.ob("PAIR-2", f"{tag}: gamma is arccosh(exp(dt U / 2)) on every branch", True, "arccosh(exp(.))", f)
+            else:
+                ctx.rep.note(f"{tag}: gamma is not written as arccosh(exp(.)); its value is not decided")
             want = "u_1" if name.endswith("_nn") else "u"
             ctx.ob("PAIR-2", f"{tag}: the coupling is ham_data['{want}']", kg == [want], f"gamma reads {kg}", f)
             numbered.setdefault(name, []).append((cls, f_key(g.number(t))))
@@ -476,6 +498,13 @@ def run(ctx):
     n_blocks = 0
     truncated = False  # a block whose pairing is broken ends the peel early: reported, not a lost anchor
     for fcls, scls in pairs:
+        # the fast propagator and its brute-force reference prepare the same one-body factors: both resolve the
+        # propagation-intermediates builder (exp_h1, mean-field shifts) to one and the same function
+        bf, bs = p.lookup_method(P + fcls, "_build_propagation_intermediates"), p.lookup_method(
+            P + scls, "_build_propagation_intermediates")
+        if bf is not None and bs is not None:
+            ctx.ob("SIB-1", f"{fcls} / {scls}: the same propagation-intermediates builder serves both", bf.qualname == bs.qualname,
+                   f"{fcls} -> {bf.qualname}; {scls} -> {bs.qualname}", bf)
         frun, fstep, fres = analyse_class(ctx, P + fcls, True)
         srun, sstep, sres = analyse_class(ctx, P + scls, False)
         # PAIR-2 inside the fast blocks
